@@ -165,7 +165,15 @@ func (c LongCodec) Omit(p unsafe.Pointer) bool {
 
 func (c LongCodec) Write(w *avro.WriteBuf, p unsafe.Pointer) {
 	t := *(*time.Time)(p)
-	l := t.UnixMicro()
+	var l int64
+	switch c.mult {
+	case 1e6:
+		l = t.UnixMilli()
+	case 1000:
+		l = t.UnixMicro()
+	default:
+		l = t.UnixNano()
+	}
 
 	c.Int64Codec.Write(w, unsafe.Pointer(&l))
 }
